@@ -24,6 +24,7 @@ import concurrent.futures as cf
 import json
 import os
 import random
+import threading
 
 from checks import dra_common as dc
 from checks import resv_common as rc
@@ -31,6 +32,14 @@ from checks import sched_common as sc
 import vlib
 
 MAP_FIELDS = {"labels", "sel"}
+VLOCK = threading.Lock()
+BLOCK = threading.Lock()
+
+
+def build(run):
+    """Run.build_drv is not re-entrant: the pipelines ask for the driver concurrently"""
+    with BLOCK:
+        return run.build_drv()
 FLAGS = "W_CanReserve = TRUE  W_Release = TRUE  W_PinAll = TRUE  W_Strict = TRUE  W_KeepHeld = TRUE  W_PoolOrder = TRUE"
 INVS = ["Inv_C17_ReservationCapacity", "Inv_C17_ManagerConsistent", "Inv_C17_PinnedToHeldIds", "Inv_C17_EveryResolutionWithinCapacity",
         "Inv_C17_StrictNoFallback", "Inv_C17_StrictClaim", "Inv_C17_NoPoolFallback", "Inv_C17_DeferJustified"]
@@ -43,26 +52,30 @@ DINVS = ["Inv_C17_DeviceExclusive", "Inv_C17_SharedCapacity", "Inv_C17_Counters"
 DWEAK = {"OtherNC": "Inv_C17_DeviceExclusive", "SameType": "Inv_C17_DeviceExclusive", "Prealloc": "Inv_C17_DeviceExclusive",
          "RefCount": "Inv_C17_DeviceExclusive", "CapInflight": "Inv_C17_SharedCapacity", "CapDelta": "Inv_C17_TrackerCoversEveryResolution",
          "Counters": "Inv_C17_Counters", "Template": "Inv_C17_DeviceExclusive",
-         # the seed rule gatherAllocatedDevices has today (known finding F-C17-1..3): the model only holds with the corrected rule
+         # the seed rule gatherAllocatedDevices had before /repo 576ecc993 (findings F-C17-1..3, fixed): TLC must reject it
          "Releasable": "Inv_C17_DeviceExclusive", "ReleasableShared": "Inv_C17_SharedCapacity"}
 DALL = 'NCs = {"N1", "N2"}  Kinds = {"net", "net2", "shm1", "shm2", "shm3", "gpu", "tshm"}  Pres = {0, 1, 2, 3, 4, 5}  Slots = {0, 1, 2}'
 ALL = 'Layouts = {1,2,3}  Caps = {0,1,2}  PoolSets = {1,2,3,4,5}  Modes = {"strict", "fallback"}'
 
 SCOPE = {
-    # mc: exhaustive closed-model scope; gen: scenario enumeration; replay: TLC scenarios replayed (None = all); explore: explorer scenarios
-    # (sized for ~2 min on a quiet 16-core machine; measured 3m42 while the shared machine's load rose from 35 to 170)
-    "quick": dict(mc='NPods = 3  PodArchs = {1,3,4,6,9}  Layouts = {1,2}  Caps = {0,1,2}  PoolSets = {2,5}  Modes = {"strict", "fallback"}',
-                  gen="NPods = 3  PodArchs = {1,2,3,4,5,6,7,8,9,10}  " + ALL, replay=1200, explore=1200,
-                  dmc="NClaims = 2  " + DALL.replace("Slots = {0, 1, 2}", "Slots = {0, 1}"),
-                  dgen="NClaims = 3  " + DALL.replace("Slots = {0, 1, 2}", "Slots = {0, 1}"), dreplay=None, dexplore=1200),   # every world x 5 pod-size variants (x both claim orders for 2 of them; thorough: for all)
-    # (pool set 4 = a single pool is a sub-case of the others: left out of the exhaustive run, kept in the enumeration that is replayed;
-    #  archetype 8 = two OR-terms relaxes into archetypes 3/4; measured: the full 59 400-scenario scope has ~3.0M states)
-    "thorough": dict(mc='NPods = 3  PodArchs = {1,2,3,4,5,6,7,9,10}  Layouts = {1,2,3}  Caps = {0,1,2}  PoolSets = {1,2,3,5}  Modes = {"strict", "fallback"}',
+    # mc / dmc: exhaustive closed-model scopes; gen / dgen: scenario (world) enumeration, strided by genmod (every genmod-th scenario,
+    # residue = seed % genmod: stratified over all dimensions, other seeds see the other residues); explore / dexplore: explorer scenarios;
+    # dvariants: (pod-size variant, reversed claim order) pairs every DRA world is wrapped into.
+    # quick is sized for <= 90 s on an unloaded 16-core machine (all TLC jobs, the harness build, both replay pipelines run concurrently)
+    "quick": dict(mc='NPods = 3  PodArchs = {1,3,4,6,9}  Layouts = {1,2}  Caps = {0,1,2}  PoolSets = {2}  Modes = {"strict", "fallback"}',
+                  gen="NPods = 3  PodArchs = {1,2,3,4,5,6,7,8,9,10}  " + ALL, genmod=48, explore=800,
+                  dmc='NClaims = 2  NCs = {"N1", "N2"}  Kinds = {"net", "net2", "shm1", "shm3", "gpu", "tshm"}  Pres = {0, 2, 4, 5}  Slots = {0, 1}',
+                  dgen="NClaims = 3  " + DALL.replace("Slots = {0, 1, 2}", "Slots = {0, 1}"), dstride=2,
+                  dvariants=[(0, False), (2, False), (3, False), (4, True)], dexplore=600),
+    # thorough is sized for <= 25 min at load 20-60 (pool set 4 = a single pool and archetype 8 = two OR-terms are sub-cases of the others:
+    # left out of the exhaustive run, kept in the enumeration that is replayed)
+    "thorough": dict(mc='NPods = 3  PodArchs = {1,2,3,4,5,6,7,9,10}  Layouts = {1,2,3}  Caps = {0,1,2}  PoolSets = {1,2,5}  Modes = {"strict", "fallback"}',
                      mc4='NPods = 4  PodArchs = {1,3,4,6,9}  Layouts = {1,3}  Caps = {1,2}  PoolSets = {2}  Modes = {"strict", "fallback"}',
-                     gen="NPods = 3  PodArchs = {1,2,3,4,5,6,7,8,9,10}  " + ALL,
+                     gen="NPods = 3  PodArchs = {1,2,3,4,5,6,7,8,9,10}  " + ALL, genmod=2,
                      gen4='NPods = 4  PodArchs = {1,2,3,4,6,8,9}  Layouts = {1,2,3}  Caps = {0,1,2}  PoolSets = {1,2,3}  Modes = {"strict", "fallback"}',
-                     replay=None, explore=15000,
-                     dmc="NClaims = 3  " + DALL, dgen="NClaims = 3  " + DALL, dreplay=None, dexplore=15000),
+                     gen4mod=4, explore=8000,
+                     dmc="NClaims = 3  " + DALL.replace("Slots = {0, 1, 2}", "Slots = {0, 1}"), dgen="NClaims = 3  " + DALL, dstride=1,
+                     dvariants=[(v, r) for v in (0, 1, 2, 3, 4) for r in (False, True)], dexplore=8000),
 }
 
 
@@ -77,7 +90,9 @@ def fix_maps(x, key=None):
     return x
 
 
-def write_cfg(run, name, consts, spec, invs, flags=FLAGS):
+def write_cfg(run, name, consts, spec, invs, flags=FLAGS, genmod=1, genres=0):
+    if flags is FLAGS:      # the Reservations module: scenario sub-sampling constants (1, 0 = the whole scope)
+        consts += "  GenMod = %d  GenRes = %d" % (genmod, genres)
     with open(os.path.join(run.specdir, name), "w") as f:
         f.write("CONSTANTS %s\nCONSTANTS %s\nSPECIFICATION %s\nINVARIANTS %s\n" % (consts, flags, spec, " ".join(invs)))
     return name
@@ -86,7 +101,7 @@ def write_cfg(run, name, consts, spec, invs, flags=FLAGS):
 def run_driver(run, scenarios, tag, procs):
     chunks = vlib.shard(scenarios, procs)
     files, sums = [], []
-    run.build_drv()
+    build(run)
 
     def one(i_chunk):
         i, chunk = i_chunk
@@ -104,135 +119,150 @@ def run_driver(run, scenarios, tag, procs):
     return files, sums, hook
 
 
-def model_dra(run, tier, dev):
-    """DRA closed model, coverage, spec mutations"""
-    if os.environ.get("VERIF_SKIP_MODEL"):
-        return
-    w, heap = (4 if dev else max(2, vlib.NCPU // 4)), ("4g" if dev else "8g")
-    write_cfg(run, "DRA_MC_run.cfg", tier["dmc"], "Spec", DINVS, DFLAGS)
-    run.closed_model("DRA", "DRA_MC_run.cfg", workers=w, heap=heap, timeout=7000)
-    write_cfg(run, "DRA_Cov_run.cfg", 'NCs = {"N1", "N2"}  NClaims = 2  Kinds = {"net", "shm2", "gpu"}  Pres = {0}  Slots = {1}', "Spec", DINVS, DFLAGS)
-    r = run.tlc("DRA", "DRA_Cov_run.cfg", workers=2, coverage=True, timeout=1200)
-    if not r.ok:
-        raise vlib.InfraError("coverage run of the DRA closed model failed: %s" % (r.violated or r.error))
-    zero = rc.coverage_zero(r.stdout)
-    if zero:
-        raise vlib.InfraError("vacuous DRA closed model, actions never taken: %s" % zero)
-    for wk, inv in DWEAK.items():
-        wr = run.tlc("DRA", "DRA_Weak%s.cfg" % wk, workers=2, expect_violation=True, timeout=900)
-        if wr.violated != inv:
-            raise vlib.InfraError("spec mutation DRA_Weak%s.cfg not rejected by TLC as expected (got %s)" % (wk, wr.violated or wr.error))
-    run.notes.append("DRA spec mutations rejected: " + ", ".join(sorted(DWEAK)))
+def closed_models(run, tier, dev):
+    """the independent TLC jobs on the closed models: exhaustive runs, coverage runs, spec mutations (each a callable)"""
+    if os.environ.get("VERIF_SKIP_MODEL"):      # developer aid for mutation runs, never used by registered commands
+        return []
+    heap = "4g" if dev else "8g"
+    # (measured, thorough at load 50-100: Reservations 1.34M states 15 min with 10 workers, DRA 3.26M states 24 min with 4 workers)
+    wr, wd = (4, 4) if dev else (max(2, vlib.NCPU * 5 // 8), max(2, vlib.NCPU * 3 // 8 if tier.get("mc4") else vlib.NCPU // 4))
 
+    def mc_resv():
+        write_cfg(run, "Reservations_MC_run.cfg", tier["mc"], "SpecFast", INVS)
+        run.closed_model("Reservations", "Reservations_MC_run.cfg", workers=wr, heap=heap, timeout=7000)
 
-def model(run, tier, dev):
-    """closed model, coverage, spec mutations (VERIF_SKIP_MODEL=1: developer aid for mutation runs)"""
-    if os.environ.get("VERIF_SKIP_MODEL"):
-        return
-    w, heap = (4 if dev else max(2, vlib.NCPU // 2)), ("4g" if dev else "8g")
-    write_cfg(run, "Reservations_MC_run.cfg", tier["mc"], "Spec", INVS)
-    run.closed_model("Reservations", "Reservations_MC_run.cfg", workers=w, heap=heap, timeout=7000)
-    if tier.get("mc4"):
-        write_cfg(run, "Reservations_MC4_run.cfg", tier["mc4"], "Spec", INVS)
-        run.closed_model("Reservations", "Reservations_MC4_run.cfg", workers=w, heap=heap, timeout=7000)
-    write_cfg(run, "Reservations_Cov_run.cfg", 'NPods = 3  PodArchs = {1,4,6,7,8,10}  Layouts = {1}  Caps = {0}  PoolSets = {2}  Modes = {"strict", "fallback"}',
-              "Spec", INVS)
-    r = run.tlc("Reservations", "Reservations_Cov_run.cfg", workers=2, coverage=True, timeout=1200)
-    if not r.ok:
-        raise vlib.InfraError("coverage run of the closed model failed: %s" % (r.violated or r.error))
-    zero = rc.coverage_zero(r.stdout)
-    if zero:
-        raise vlib.InfraError("vacuous closed model, actions never taken: %s" % zero)
-    for wk, inv in WEAK.items():
-        wr = run.tlc("Reservations", "Reservations_Weak%s.cfg" % wk, workers=2, expect_violation=True, timeout=900)
-        if wr.violated != inv:
-            raise vlib.InfraError("spec mutation Reservations_Weak%s.cfg not rejected by TLC as expected (got %s)" % (wk, wr.violated or wr.error))
-    run.notes.append("spec mutations rejected: " + ", ".join(sorted(WEAK)))
+    def mc4_resv():
+        write_cfg(run, "Reservations_MC4_run.cfg", tier["mc4"], "SpecFast", INVS)
+        run.closed_model("Reservations", "Reservations_MC4_run.cfg", workers=4, heap=heap, timeout=7000)
+
+    def mc_dra():
+        write_cfg(run, "DRA_MC_run.cfg", tier["dmc"], "Spec", DINVS, DFLAGS)
+        run.closed_model("DRA", "DRA_MC_run.cfg", workers=wd, heap=heap, timeout=7000)
+
+    def cov(module, cfgname, consts, invs, flags):
+        def job():
+            write_cfg(run, cfgname, consts, "Spec", invs, flags)
+            r = run.tlc(module, cfgname, workers=1, coverage=True, timeout=1200, heap="2g")
+            if not r.ok:
+                raise vlib.InfraError("coverage run of the %s closed model failed: %s" % (module, r.violated or r.error))
+            zero = rc.coverage_zero(r.stdout[max(0, r.stdout.rfind("The coverage statistics")):])
+            if zero:
+                raise vlib.InfraError("vacuous %s closed model, actions never taken: %s" % (module, zero))
+        return job
+
+    def weak(module, table):
+        def job():
+            for wk, inv in table.items():
+                wr_ = run.tlc(module, "%s_Weak%s.cfg" % (module, wk), workers=1, expect_violation=True, timeout=900, heap="2g")
+                if wr_.violated != inv:
+                    raise vlib.InfraError("spec mutation %s_Weak%s.cfg not rejected by TLC as expected (got %s)" % (module, wk, wr_.violated or wr_.error))
+            run.notes.append("%s spec mutations rejected: %s" % (module, ", ".join(sorted(table))))
+        return job
+
+    half = lambda t, k: dict(list(t.items())[k::2])
+    return [mc_resv, mc_dra] + ([mc4_resv] if tier.get("mc4") else []) + [
+            cov("Reservations", "Reservations_Cov_run.cfg",
+                'NPods = 2  PodArchs = {1,7,8,10}  Layouts = {1}  Caps = {0}  PoolSets = {2}  Modes = {"strict", "fallback"}', INVS, FLAGS),
+            cov("DRA", "DRA_Cov_run.cfg", 'NCs = {"N1", "N2"}  NClaims = 2  Kinds = {"net", "shm2", "gpu"}  Pres = {0}  Slots = {1}', DINVS, DFLAGS),
+            weak("Reservations", WEAK), weak("DRA", half(DWEAK, 0)), weak("DRA", half(DWEAK, 1))]
 
 
 def check(run):
     tier = SCOPE[run.tier]
     rng = random.Random(run.seed)
     dev = os.environ.get("VERIF_DEV")
-    procs = 4 if dev else min(12, vlib.NCPU)
+    procs = 4 if dev else max(2, min(8, vlib.NCPU // 2))         # driver processes / validators PER replay pipeline (two run side by side)
     run.rule = ("a behaviour = one scenario run through the real scheduler.  Reservation half: catalog with reserved offerings x weighted pools "
                 "x pod batch x strict|fallback x workers; non-trivial when some NodeClaim held a reservation at a commitment or a pod was "
                 "deferred with a reserved-offering error.  DRA half: ResourceSlices / templates / claims x pod batch; non-trivial when the "
                 "allocator allocated at least one claim in the pass (only then a C17 guard has a non-trivial antecedent)")
-    # 1./2. closed models of both halves, harness build and TLC scenario enumeration: independent jobs, run concurrently
-    #    (reservations: both modes are part of the scenario space; workers 1/2/8 by rotation)
-    write_cfg(run, "Reservations_Gen_run.cfg", tier["gen"], "GenSpec", ["GenPrint"])
-    write_cfg(run, "DRA_Gen_run.cfg", tier["dgen"], "GenSpec", ["GenPrint"], DFLAGS)
-    with cf.ThreadPoolExecutor(max_workers=5) as ex:
-        jobs = [ex.submit(run.build_drv), ex.submit(model, run, tier, dev), ex.submit(model_dra, run, tier, dev)]
-        j1 = ex.submit(run.generate, "Reservations", "Reservations_Gen_run.cfg", workers=2, timeout=2400, heap="4g")
-        j2 = ex.submit(run.generate, "DRA", "DRA_Gen_run.cfg", workers=2, timeout=2400, heap="4g")
-        for j in jobs:
-            j.result()
-        enum, worlds = [fix_maps(s) for s in j1.result()], j2.result()
-    if tier.get("gen4"):
-        write_cfg(run, "Reservations_Gen4_run.cfg", tier["gen4"], "GenSpec", ["GenPrint"])
-        enum += [fix_maps(s) for s in run.generate("Reservations", "Reservations_Gen4_run.cfg", workers=2, timeout=2400, heap="4g")]
-    if not enum or not worlds:
-        raise vlib.InfraError("TLC generated no scenarios")
-    total_enum, total_worlds = len(enum), len(worlds)
-    run.exhaustive = True
-    if tier["replay"] and tier["replay"] < len(enum):
-        enum, run.exhaustive = rng.sample(enum, tier["replay"]), False
-    rng.shuffle(enum)
-    scenarios = [rc.with_workers(s, (1, 2, 8)[i % 3]) for i, s in enumerate(enum)]
-    scenarios += [rc.explore_resv(rng, "x-resv-%d-%d" % (run.seed, i)) for i in range(tier["explore"])]
-    #    DRA: every world x 5 pod-size variants x 2 claim-to-pod orders
-    revs = {v: (False, True) if (run.tier == "thorough" or v in (0, 2)) else (False,) for v in dc.SIZES}
-    dscn = [dc.from_world(w, v, "tlc-dra-%d/v%d%s" % (i, v, "r" if rev else ""), rev) for i, w in enumerate(worlds) for v in sorted(dc.SIZES)
-            for rev in revs[v]]
-    total_dscn = len(dscn)
-    if tier["dreplay"] and tier["dreplay"] < len(dscn):
-        dscn, run.exhaustive = rng.sample(dscn, tier["dreplay"]), False
-    dscn += [dc.explore_dra(rng, "x-dra-%d-%d" % (run.seed, i)) for i in range(tier["dexplore"])]
-    # witnesses of the listed known findings (always replayed, so the KNOWN-FINDING lines do not depend on the seed)
     wdir = os.path.join(vlib.ROOT, "checks", "witness")
-    nwit = 0
-    for f in sorted(os.listdir(wdir)):
-        if f.startswith("C17-") and f.endswith(".json"):
-            w = json.load(open(os.path.join(wdir, f)))
-            (dscn if "dra" in w else scenarios).append(w)
-            nwit += 1
-    # 3./4. the real scheduler + trace validation, in batches (bounds the scratch space: validated trace files without findings are removed)
-    sums, stats, hook = replay_validate(run, scenarios, "c17", "Reservations_Trace", procs, dev, hot_resv)
-    dsums, dstats, dhook = replay_validate(run, dscn, "c17dra", "DRA_Trace", procs, dev, hot_dra)
+    wit = [json.load(open(os.path.join(wdir, f))) for f in sorted(os.listdir(wdir)) if f.startswith("C17-") and f.endswith(".json")]
+    info = {}
+
+    def pipe_resv():
+        """TLC-enumerated scenarios (strided sample; both modes are part of the scenario space; workers 1/2/8 by rotation) + explorer"""
+        write_cfg(run, "Reservations_Gen_run.cfg", tier["gen"], "GenSpec", ["GenPrint"], genmod=tier["genmod"], genres=run.seed % tier["genmod"])
+        enum = [fix_maps(s) for s in run.generate("Reservations", "Reservations_Gen_run.cfg", workers=2, timeout=2400, heap="4g")]
+        if tier.get("gen4"):
+            write_cfg(run, "Reservations_Gen4_run.cfg", tier["gen4"], "GenSpec", ["GenPrint"], genmod=tier["gen4mod"], genres=run.seed % tier["gen4mod"])
+            enum += [fix_maps(s) for s in run.generate("Reservations", "Reservations_Gen4_run.cfg", workers=2, timeout=2400, heap="4g")]
+        if not enum:
+            raise vlib.InfraError("TLC generated no scenarios")
+        r2 = random.Random(run.seed)
+        r2.shuffle(enum)
+        scn = [rc.with_workers(s, (1, 2, 8)[i % 3]) for i, s in enumerate(enum)]
+        scn += [rc.explore_resv(r2, "x-resv-%d-%d" % (run.seed, i)) for i in range(tier["explore"])]
+        scn += [w for w in wit if "dra" not in w]
+        info["resv"] = dict(tlc=len(enum), scn=scn)
+        build(run)
+        return replay_validate(run, scn, "c17", "Reservations_Trace", procs, dev, hot_resv)
+
+    def pipe_dra():
+        """every stride-th TLC world x the tier's (pod sizes, claim order) variants + explorer + witnesses"""
+        write_cfg(run, "DRA_Gen_run.cfg", tier["dgen"], "GenSpec", ["GenPrint"], DFLAGS)
+        worlds = run.generate("DRA", "DRA_Gen_run.cfg", workers=2, timeout=2400, heap="4g")
+        if not worlds:
+            raise vlib.InfraError("TLC generated no worlds")
+        st = tier["dstride"]
+        scn = [dc.from_world(w, v, "tlc-dra-%d/v%d%s" % (i, v, "r" if rev else ""), rev)
+               for j, (v, rev) in enumerate(tier["dvariants"]) for i, w in enumerate(worlds) if (i + j + run.seed) % st == 0]
+        r2 = random.Random(run.seed + 1)
+        scn += [dc.explore_dra(r2, "x-dra-%d-%d" % (run.seed, i)) for i in range(tier["dexplore"])]
+        scn += [w for w in wit if "dra" in w]
+        info["dra"] = dict(worlds=len(worlds), scn=scn)
+        build(run)
+        return replay_validate(run, scn, "c17dra", "DRA_Trace", procs, dev, hot_dra)
+
+    # everything is independent: closed models, coverage, spec mutations, harness build, enumeration -> replay -> validation per half
+    with cf.ThreadPoolExecutor(max_workers=10) as ex:
+        fb = ex.submit(build, run)
+        fr, fd = ex.submit(pipe_resv), ex.submit(pipe_dra)
+        fm = [ex.submit(j) for j in closed_models(run, tier, dev)]
+        fb.result()
+        (sums, stats, hook, cases), (dsums, dstats, dhook, dcases) = fr.result(), fd.result()
+        for f in fm:
+            f.result()
+    for name, hotcase in cases + dcases:
+        run.note_case(name, hotcase)
     if not (hook and dhook):
         raise vlib.InfraError("the tree under test does not carry hook H1 (repo-patches/hook-H1.patch): C17 needs the commit-order events")
     note_obs(run, list(run.viol))
+    scenarios, dscn = info["resv"]["scn"], info["dra"]["scn"]
     run.samples = [{"scenario": scenarios[0]["name"], "summary": sums[0]}, {"scenario": scenarios[-1]["name"], "summary": sums[-1]},
                    {"scenario": dscn[0]["name"], "summary": dsums[0]}, {"scenario": dscn[-1]["name"], "summary": dsums[-1]}]
     run.extra_cov.update({"halves": "reservations + DRA",
-                          "tlc_enumerated_scenarios": total_enum, "tlc_scenarios_replayed": len(enum), "explorer_scenarios": tier["explore"],
-                          "dra_tlc_worlds": total_worlds, "dra_tlc_scenarios": total_dscn, "dra_scenarios_replayed": len(dscn) - tier["dexplore"] - nwit, "witness_scenarios": nwit,
+                          "tlc_scenarios_replayed": info["resv"]["tlc"], "tlc_scenario_stride": tier["genmod"], "explorer_scenarios": tier["explore"],
+                          "dra_tlc_worlds": info["dra"]["worlds"], "dra_world_stride": tier["dstride"], "dra_variants_per_world": len(tier["dvariants"]),
+                          "dra_scenarios_replayed": len(dscn) - tier["dexplore"], "witness_scenarios": len(wit),
                           "dra_explorer_scenarios": tier["dexplore"], "trace_stats": stats, "dra_trace_stats": dstats, "hook_h1_events": hook,
                           "new_claims": sum(s.get("claims", 0) for s in sums + dsums), "pod_errors": sum(s.get("errors", 0) for s in sums + dsums),
                           "panics": sum(1 for s in sums + dsums if s.get("panic"))})
     # vacuity guard (only when nothing failed: a changed tree that e.g. never defers must be judged by its violations, not by this)
-    if not run.viol and (stats.get("holdingSteps", 0) == 0 or stats.get("deferrals", 0) == 0 or stats.get("releases", 0) == 0):
+    if not run.viol and (stats.get("holdingSteps", 0) == 0 or stats.get("deferrals", 0) == 0 or stats.get("releases", 0) == 0
+                         or stats.get("exactOpens", 0) == 0 or stats.get("exactDefers", 0) == 0 or stats.get("multiHeld", 0) == 0):
         raise vlib.InfraError("vacuous run: no commitment held a reservation / nothing was released / nothing was deferred (%s)" % stats)
     if not run.viol and (dstats.get("claimsAllocated", 0) == 0 or dstats.get("superposed", 0) == 0 or dstats.get("sharedDevices", 0) == 0
-                         or dstats.get("templateDevices", 0) == 0):
+                         or dstats.get("templateDevices", 0) == 0 or dstats.get("onExisting", 0) == 0):
         raise vlib.InfraError("vacuous DRA run: no claim allocated / no superposed NodeClaim / no shared or template device (%s)" % dstats)
-    run.assumptions += [
-        "capacity of a reservation id = the capacity its offerings declare (all offerings of one id agree in the generated catalogs; "
-        "otherwise the invariant uses the largest, the exhaustion test the smallest declared value)",
-        "a NodeClaim holds the ids hook H1 reports after its latest commitment (nc.reservedOfferings); holders and remaining capacity are "
-        "recomputed by the trace spec, the ReservationManager's table is never read",
-        "converse guards (no fallback to a lower-weight pool, deferral only while a compatible reservation is exhausted) are evaluated only on "
-        "the sub-alphabet where compatibility is decidable from the scenario (no daemonsets/taints/limits/minValues/overrides; pod constrains "
-        "zone/ct/it/arch by selector and at most one required term)",
-        "fallback mode: a claim forced to capacity-type reserved by its pool/pods that holds no reservation is not counted as a holder (observation only)",
-        "DRA: the instance types a new NodeClaim can still become are those of its H1 `final` event (before TruncateInstanceTypes, a superset); an "
-        "existing node has the one type of its label; a device that consumes a counter is charged once per resolution however often it is shared",
-        "DRA alphabet: one capacity dimension and one counter per pool, one ExactCount request per claim, DeviceClasses select by driver; "
-        "pre-allocated claims stay allocated (no deleting consumers); All-mode, FirstAvailable, constraints and attribute bindings are not generated",
-        "single scheduling pass; API/provider faults are outside C17's quantifier",
-    ]
+    run.assumptions += ASSUMPTIONS
+
+
+ASSUMPTIONS = [
+    "capacity of a reservation id = the capacity its offerings declare (all offerings of one id agree in the generated catalogs; "
+    "otherwise the invariant uses the largest, the exhaustion test the smallest declared value)",
+    "a NodeClaim holds the ids hook H1 reports after its latest commitment (nc.reservedOfferings); holders and remaining capacity are "
+    "recomputed by the trace spec, the ReservationManager's table is never read",
+    "converse guards (no fallback to a lower-weight pool, deferral only while a compatible reservation is exhausted) are evaluated only on "
+    "the sub-alphabet where compatibility is decidable from the scenario (no daemonsets/taints/limits/minValues/overrides; pod constrains "
+    "zone/ct/it/arch by selector and at most one required term)",
+    "fallback mode: a claim forced to capacity-type reserved by its pool/pods that holds no reservation is not counted as a holder (observation only)",
+    "DRA: the instance types a new NodeClaim can still become are those of its H1 `final` event (before TruncateInstanceTypes, a superset); an "
+    "existing node has the one type of its label; a device that consumes a counter is charged once per resolution however often it is shared",
+    "DRA alphabet: one capacity dimension and one counter per pool, one ExactCount request per claim, DeviceClasses select by driver; "
+    "pre-allocated claims stay allocated (no deleting consumers); All-mode, FirstAvailable, constraints and attribute bindings are not generated",
+    "single scheduling pass; API/provider faults are outside C17's quantifier",
+]
 
 
 def hot_resv(line):
@@ -246,15 +276,17 @@ def hot_dra(line):
 
 
 def replay_validate(run, scenarios, tag, spec, procs, dev, hot, batch=20000):
-    """run the scenarios through the driver and validate the traces with trace spec `spec`, batch by batch"""
-    sums, stats, hook = [], {}, True
+    """run the scenarios through the driver and validate the traces with trace spec `spec`, batch by batch (bounds the scratch space:
+    validated trace files without findings are removed).  Called from two threads: returns the cases instead of noting them."""
+    sums, stats, hook, cases = [], {}, True, []
     for b in range(0, len(scenarios), batch):
         files, bs, h = run_driver(run, scenarios[b:b + batch], "%s-b%02d" % (tag, b // batch), procs)
         hook = hook and h
         bad = [s for s in bs if s.get("status") != "ok"]
         if bad:
             raise vlib.InfraError("driver could not materialise %d scenarios, e.g. %s" % (len(bad), bad[0]))
-        viol = run.validate(spec, spec + ".cfg", files, par=4 if dev else None, timeout=3000)
+        with VLOCK:         # Run.validate updates the run's counters: one call at a time (each call is parallel inside)
+            viol = run.validate(spec, spec + ".cfg", files, par=procs * 2, timeout=3000)
         for k, v in collect_stats(files).items():
             stats[k] = stats.get(k, 0) + v
         hotnames = set()
@@ -265,8 +297,7 @@ def replay_validate(run, scenarios, tag, spec, procs, dev, hot, batch=20000):
                     name = json.loads(line).get("name")
                 elif hot(line):
                     hotnames.add(name)
-        for s in bs:
-            run.note_case(s["name"], s["name"] in hotnames)
+        cases += [(s["name"], s["name"] in hotnames) for s in bs]
         sums += bs
         keep = {v["file"] for v in viol}
         for f in files:
@@ -274,7 +305,7 @@ def replay_validate(run, scenarios, tag, spec, procs, dev, hot, batch=20000):
                 for x in (f, f + ".viol.json", f + ".tlc.out"):
                     if os.path.exists(x):
                         os.remove(x)
-    return sums, stats, hook
+    return sums, stats, hook, cases
 
 
 def note_obs(run, viol):
